@@ -5,6 +5,9 @@
 //!   `rcb2 <T> <mode> <w> <h> <iter> <plen> <n> <w_0> … <w_{n-1}>`      → `ids <id…>` (`plen` entries)
 //!   `rcb3 <T> <mode> <w> <h> <d> <iter> <plen> <n> <w_0> …`            → `ids <id…>`
 //!   `med <T> <mode> <total> <n> <w_0> …`                               → `med <position> <left_weight>`
+//!   `reuse2 <T> <mode> <w> <h> <iterA> <iterB> <n> <a_0> … <a_{n-1}> <b_0> … <b_{n-1}>` (and `reuse3 … <w> <h> <d> …`)
+//!        → `ids <id…>`: the partition buffer after `rcb(A, iterA)` followed by `rcb(B, iterB)` INTO THE
+//!        SAME BUFFER; must equal the result of `rcb(B, iterB)` on a fresh buffer (no dependence on history)
 //!   `pos2 <w> <h> <i>` → `pos x y`      `idx2 <w> <h> <x> <y>` → `idx i`      `len2 <w> <h>` → `len n`
 //!   `pos3 <w> <h> <d> <i>` → `pos x y z` `idx3 <w> <h> <d> <x> <y> <z>` → `idx i` `len3 <w> <h> <d>` → `len n`
 //! other outcomes: `panic file:line: message`, `hang` (watchdog), `bad-op`.
@@ -69,6 +72,7 @@ fn in_pool<R: Send + 'static>(threads: usize, f: impl FnOnce() -> R + Send + 'st
 enum Op {
     Rcb { t: usize, float: bool, dims: Vec<usize>, iter: usize, plen: usize, ws: Vec<i64> },
     Med { t: usize, float: bool, total: i64, ws: Vec<i64> },
+    Reuse { t: usize, float: bool, dims: Vec<usize>, iter_a: usize, iter_b: usize, wa: Vec<i64>, wb: Vec<i64> },
     Pos { dims: Vec<usize>, i: usize },
     Idx { dims: Vec<usize>, pos: Vec<usize> },
     Len { dims: Vec<usize> },
@@ -98,6 +102,21 @@ fn fmt_med(t: usize, float: bool, total: i64, ws: &[i64]) -> String {
         s.push_str(&join(ws));
     }
     s
+}
+
+fn fmt_reuse(t: usize, float: bool, dims: &[usize], iter_a: usize, iter_b: usize, wa: &[i64], wb: &[i64]) -> String {
+    format!(
+        "reuse{} {} {} {} {} {} {} {} {}",
+        dims.len(),
+        t,
+        mode_str(float),
+        join(dims),
+        iter_a,
+        iter_b,
+        wa.len(),
+        join(wa),
+        join(wb)
+    )
 }
 
 fn parse_mode(s: &str) -> Option<bool> {
@@ -133,6 +152,20 @@ fn parse_op(op: &str) -> Option<Op> {
                 return None;
             }
             Op::Rcb { t, float, dims, iter, plen, ws }
+        }
+        "reuse2" | "reuse3" => {
+            let d = if name == "reuse2" { 2 } else { 3 };
+            let t: usize = it.next()?.parse().ok()?;
+            let float = parse_mode(it.next()?)?;
+            let dims: Vec<usize> = take(&mut it, d)?;
+            let rest: Vec<usize> = take(&mut it, 3)?;
+            let (iter_a, iter_b, n) = (rest[0], rest[1], rest[2]);
+            let wa: Vec<i64> = take(&mut it, n)?;
+            let wb: Vec<i64> = take(&mut it, n)?;
+            if dims.iter().any(|&s| s == 0) || t == 0 || t > 64 || dims.iter().product::<usize>() != n {
+                return None;
+            }
+            Op::Reuse { t, float, dims, iter_a, iter_b, wa, wb }
         }
         "med" => {
             let t: usize = it.next()?.parse().ok()?;
@@ -380,6 +413,7 @@ pub fn run_op(ctx: &mut Ctx, op: &str) {
     match parsed {
         Op::Rcb { t, float, dims, iter, plen, ws } => run_rcb(ctx, op, t, float, dims, iter, plen, ws),
         Op::Med { t, float, total, ws } => run_med(ctx, op, t, float, total, ws),
+        Op::Reuse { t, float, dims, iter_a, iter_b, wa, wb } => run_reuse(ctx, op, t, float, dims, iter_a, iter_b, wa, wb),
         Op::Pos { dims, i } => {
             let glen: u128 = dims.iter().map(|&s| s as u128).product();
             let d = dims.clone();
@@ -551,6 +585,72 @@ fn run_rcb(ctx: &mut Ctx, op: &str, t: usize, float: bool, dims: Vec<usize>, ite
         }
     };
     let idx = ctx.record(op.to_string(), out, nontrivial);
+    if let Some((sig, what)) = verdict {
+        ctx.fail(idx, sig, what);
+    }
+}
+
+/// One call of `Grid::rcb` on `ws` into `partition` (the four monomorphic instances).
+fn call_rcb(d: &[usize], float: bool, partition: &mut [usize], ws: &[i64], iter: usize) {
+    match (d.len(), float) {
+        (2, false) => grid2(d).rcb(partition, ws, iter),
+        (2, true) => {
+            let wf: Vec<f64> = ws.iter().map(|&w| w as f64).collect();
+            grid2(d).rcb(partition, &wf, iter)
+        }
+        (_, false) => grid3(d).rcb(partition, ws, iter),
+        (_, true) => {
+            let wf: Vec<f64> = ws.iter().map(|&w| w as f64).collect();
+            grid3(d).rcb(partition, &wf, iter)
+        }
+    }
+}
+
+/// REUSE: the same grid value and the same output buffer used for two successive calls
+/// (first `wa` with `iter_a`, then `wb` with `iter_b`); the second result must not depend
+/// on the first call: it is compared with a fresh-buffer call and checked by the oracle.
+#[allow(clippy::too_many_arguments)]
+fn run_reuse(ctx: &mut Ctx, op: &str, t: usize, float: bool, dims: Vec<usize>, iter_a: usize, iter_b: usize, wa: Vec<i64>, wb: Vec<i64>) {
+    let glen: usize = dims.iter().product();
+    let (d, a, b) = (dims.clone(), wa.clone(), wb.clone());
+    let res = in_pool(t, move || {
+        let mut reused = vec![usize::MAX; glen];
+        call_rcb(&d, float, &mut reused, &a, iter_a);
+        call_rcb(&d, float, &mut reused, &b, iter_b);
+        let mut fresh = vec![usize::MAX; glen];
+        call_rcb(&d, float, &mut fresh, &b, iter_b);
+        (reused, fresh)
+    });
+    let well_formed = wb.iter().all(|&w| w >= 0) && wa.iter().all(|&w| w >= 0);
+    let mut verdict: Option<(&str, String)> = None;
+    let out = match res {
+        Caught::Ok((reused, fresh)) => {
+            ctx.count("out_ids");
+            if let Some(i) = (0..glen).find(|&i| reused[i] != fresh[i]) {
+                verdict = Some((
+                    "reuse-dependence",
+                    format!("cell {}: id {} after a previous call into the same buffer, {} on a fresh buffer", i, reused[i], fresh[i]),
+                ));
+            } else if well_formed {
+                match rcb_oracle(&dims, iter_b, float, &reused, &wb) {
+                    Ok(_) => ctx.count("oracle_rcb_checked"),
+                    Err((sig, what)) => verdict = Some((sig, what)),
+                }
+            }
+            format!("ids {}", join(&reused))
+        }
+        Caught::Panic(m) => {
+            ctx.count("out_panic");
+            verdict = Some(("panic", format!("{} [{}]", m, panic_sig(&m))));
+            format!("panic {}", m)
+        }
+        Caught::Hang => {
+            ctx.count("hang");
+            verdict = Some(("hang", format!("no return within {} s on a pool of {} thread(s)", WATCHDOG_SECS, t)));
+            "hang".into()
+        }
+    };
+    let idx = ctx.record(op.to_string(), out, well_formed && glen >= 2 && iter_b >= 1);
     if let Some((sig, what)) = verdict {
         ctx.fail(idx, sig, what);
     }
@@ -909,6 +1009,239 @@ fn random_rcb(ctx: &mut Ctx) {
     }
 }
 
+// ------------------------------------------------------------------ large / corner / reuse stream
+
+const LARGE_SHAPES: [&str; 6] = ["gradient", "plane", "random", "blocks", "sorted_runs", "sparse"];
+
+/// Non-constant weights for large grids. `blocks` / `sorted_runs` are constant inside
+/// runs of 4096 / 8192 consecutive memory indices (block-aligned structure).
+fn large_weights(rng: &mut Rng, dims: &[usize], shape: usize) -> Vec<i64> {
+    let mut d3 = [1usize; 3];
+    d3[..dims.len()].copy_from_slice(dims);
+    let n: usize = d3.iter().product();
+    let pos = |i: usize| [i % d3[0], (i / d3[0]) % d3[1], i / d3[0] / d3[1]];
+    match shape {
+        0 => (0..n).map(|i| { let p = pos(i); (p[0] + 2 * p[1] + 3 * p[2] + 1) as i64 }).collect(),
+        1 => {
+            // one dominant row / column / plane
+            let a = rng.usize(dims.len());
+            let line = rng.usize(d3[a]);
+            (0..n).map(|i| if pos(i)[a] == line { 1_000_000 + rng.range(0, 99) } else { rng.range(0, 9) }).collect()
+        }
+        2 => (0..n).map(|_| rng.range(0, 1000)).collect(),
+        3 => (0..n).map(|i| 1 + ((i / 4096) % 5) as i64 * 3).collect(),
+        4 => (0..n).map(|i| (i / 8192) as i64).collect(),
+        _ => (0..n).map(|_| if rng.chance(49, 50) { 0 } else { rng.range(1, 1000) }).collect(),
+    }
+}
+
+fn size_class(n: usize) -> &'static str {
+    match n {
+        0..=4096 => "<=4096",
+        4097..=16384 => "4097..16384",
+        16385..=65536 => "16385..65536",
+        65537..=131072 => "65537..131072",
+        _ => ">131072",
+    }
+}
+
+/// Weighted-median inputs of `n` slabs for the large stream.
+fn large_slabs(rng: &mut Rng, n: usize, shape: usize) -> Vec<i64> {
+    match shape {
+        0 => (0..n).map(|_| rng.range(0, 1000)).collect(),
+        1 => vec![1; n],
+        // ascending in runs of 4096
+        2 => (0..n).map(|i| (i / 4096) as i64 + 1).collect(),
+        // the half-weight mark sits in the last partial block of 4096 / 8192 / 65536
+        3 => {
+            let mut v: Vec<i64> = (0..n).map(|_| rng.range(0, 3)).collect();
+            v[n - 1 - rng.usize(n.min(30))] = 100_000_000;
+            v
+        }
+        // … or at a block seam
+        4 => {
+            let mut v: Vec<i64> = (0..n).map(|_| rng.range(0, 3)).collect();
+            let seam = [4096usize, 8192, 16384, 65536].iter().copied().filter(|&b| b < n).last().unwrap_or(0);
+            let k = (seam + rng.usize(3)).saturating_sub(1).min(n - 1);
+            v[k] = 100_000_000;
+            v
+        }
+        _ => (0..n).map(|i| if i % 4096 == 4095 { 5000 } else { 0 }).collect(),
+    }
+}
+
+/// Grids above 65 536 cells (not multiples of 65 536), long thin grids with fewer rows than
+/// threads, rows of 4096 / 8192 nodes, weighted medians on up to 140 003 slabs, weights near
+/// the top of the exact range, and buffer reuse. The compiled model runs 10^5 cells in
+/// ~0.1 s, so every case is compared exactly AND checked by the oracle.
+fn large_stream(ctx: &mut Ctx) {
+    // (sides, pool sizes to draw from)
+    let thin: [usize; 3] = [1, 8, 16];
+    let any: [usize; 5] = [1, 2, 3, 8, 16];
+    let mut grids: Vec<(Vec<usize>, &[usize])> = vec![
+        (vec![300, 300], &any),
+        (vec![257, 257], &any),
+        (vec![45, 45, 45], &any),
+        (vec![27, 27, 27], &any),
+        (vec![41, 40, 41], &any),
+        (vec![20000, 6], &thin),
+        (vec![6, 20000], &thin),
+        (vec![8193, 3], &thin),
+        (vec![3, 8193], &thin),
+        (vec![4096, 17], &any),
+        (vec![8192, 9], &thin),
+        (vec![65548, 1], &thin),
+        (vec![1, 70001], &any),
+        (vec![2, 2, 16422], &thin),
+    ];
+    if !ctx.quick() {
+        grids.extend([
+            (vec![362, 362], &any[..]),
+            (vec![131077, 1], &thin[..]),
+            (vec![1, 140003], &thin[..]),
+            (vec![51, 51, 51], &any[..]),
+            (vec![512, 257], &any[..]),
+            (vec![16384, 9], &thin[..]),
+            (vec![3, 3, 14567], &thin[..]),
+        ]);
+    }
+    let reps = ctx.budget(1, 3);
+    for (k, (dims, pools)) in grids.iter().enumerate() {
+        for r in 0..reps {
+            if too_many_hangs(ctx) {
+                return;
+            }
+            // thorough: every pool size of the list once; quick: one drawn
+            let t = if ctx.quick() { *ctx.rng.pick(pools) } else { pools[(r + k) % pools.len()] };
+            let shape = if r == 0 { k % LARGE_SHAPES.len() } else { ctx.rng.usize(LARGE_SHAPES.len()) };
+            let ws = large_weights(&mut ctx.rng, dims, shape);
+            let iter = if r == 0 { 6 - (k % 3) } else { ctx.rng.usize(7) };
+            let float = (k + r) % 3 == 1;
+            let glen: usize = dims.iter().product();
+            ctx.count(&format!("large:rcb_cells_{}", size_class(glen)));
+            ctx.count(&format!("large:rcb_shape_{}", LARGE_SHAPES[shape]));
+            ctx.count(&format!("large:rcb_T_{}", t));
+            if dims.iter().any(|&s| s < t) {
+                ctx.count("large:rcb_side_shorter_than_pool");
+            }
+            run_rcb_case(ctx, t, float, dims, iter, &ws);
+        }
+    }
+    // weighted_median directly, sizes just above / far above block thresholds
+    let mut sizes = vec![4097usize, 8193, 16385 + 37, 20001, 65537 + 11, 70001];
+    if !ctx.quick() {
+        sizes.extend([131077, 140003, 262144 + 5]);
+    }
+    let per_size = ctx.budget(2, 8);
+    for (k, &n) in sizes.iter().enumerate() {
+        for r in 0..per_size {
+            if too_many_hangs(ctx) {
+                return;
+            }
+            let shape = (k + r) % 6;
+            let ws = large_slabs(&mut ctx.rng, n, shape);
+            let t = [1usize, 2, 3, 16, 8, 4][(k + 2 * r) % 6];
+            let float = (k + r) % 4 == 3;
+            let total: i64 = ws.iter().sum();
+            ctx.count(&format!("large:med_n_{}", size_class(n)));
+            ctx.count(&format!("large:med_T_{}", t));
+            run_op(ctx, &fmt_med(t, float, total, &ws));
+        }
+    }
+    // corners: weights near the top of the exact range (totals still fit)
+    for r in 0..ctx.budget(4, 40) {
+        if too_many_hangs(ctx) {
+            return;
+        }
+        let dims: Vec<usize> = if r % 2 == 0 { vec![5, 3] } else { vec![2, 2, 3] };
+        let glen: usize = dims.iter().product();
+        let t = *ctx.rng.pick(&THREADS);
+        let iter = 1 + ctx.rng.usize(4);
+        // (name, unit, float): weights are k * unit with k in 0..=3 (sum of k at most 45)
+        let (name, unit, float) = match r % 4 {
+            0 => ("corner:f64_total_near_2^52", 1i64 << 46, true),
+            1 => ("corner:i64_total_near_2^62", 1i64 << 57, false),
+            2 => ("corner:i64_total_near_2^51", 1i64 << 45, false),
+            _ => ("corner:f64_total_near_2^53_odd", (1i64 << 47) + 1, true),
+        };
+        let ws: Vec<i64> = (0..glen).map(|_| ctx.rng.range(0, 3) * unit).collect();
+        ctx.count(name);
+        run_rcb_case(ctx, t, float, &dims, iter, &ws);
+        let slabs: Vec<i64> = (0..3 + ctx.rng.usize(12)).map(|_| ctx.rng.range(0, 3) * unit).collect();
+        let total: i64 = slabs.iter().sum();
+        ctx.count(name);
+        run_op(ctx, &fmt_med(t, float, total, &slabs));
+    }
+    // corners: exactly 2 and 3 cells / slabs at every pool size, 63..65 slabs, iter 6 on 2^6 cells
+    for &t in &THREADS {
+        if too_many_hangs(ctx) {
+            return;
+        }
+        for ws in [vec![3i64, 1], vec![1, 3], vec![1, 1, 1], vec![0, 5, 0], vec![2, 0, 2]] {
+            ctx.count("corner:two_or_three_cells");
+            let total: i64 = ws.iter().sum();
+            run_op(ctx, &fmt_med(t, false, total, &ws));
+            run_rcb_case(ctx, t, false, &[ws.len(), 1], 2, &ws);
+            run_rcb_case(ctx, t, true, &[1, ws.len()], 2, &ws);
+        }
+        for n in [63usize, 64, 65, 255, 256, 257] {
+            ctx.count("corner:slab_count_63..257");
+            let ws: Vec<i64> = (0..n).map(|_| ctx.rng.range(0, 9)).collect();
+            let total: i64 = ws.iter().sum();
+            run_op(ctx, &fmt_med(t, false, total, &ws));
+        }
+        ctx.count("corner:iter6_on_64_cells");
+        let ws: Vec<i64> = (0..64).map(|_| ctx.rng.range(1, 9)).collect();
+        run_rcb_case(ctx, t, false, &[8, 8], 6, &ws);
+        run_rcb_case(ctx, t, false, &[4, 4, 4], 6, &ws);
+    }
+    // reuse: the same buffer (and the same pool) for two successive calls
+    let mut reuse: Vec<(Vec<usize>, usize, usize)> = vec![
+        (vec![7, 5], 6, 2),
+        (vec![4, 3, 5], 5, 1),
+        (vec![1, 9], 3, 0),
+        (vec![300, 300], 6, 3),
+        (vec![27, 27, 27], 2, 6),
+    ];
+    for _ in 0..ctx.budget(6, 120) {
+        let d = if ctx.rng.chance(1, 3) {
+            vec![side(&mut ctx.rng, 8), side(&mut ctx.rng, 8), side(&mut ctx.rng, 8)]
+        } else {
+            vec![side(&mut ctx.rng, 30), side(&mut ctx.rng, 30)]
+        };
+        reuse.push((d, ctx.rng.usize(7), ctx.rng.usize(7)));
+    }
+    for (dims, iter_a, iter_b) in reuse {
+        if too_many_hangs(ctx) {
+            return;
+        }
+        let glen: usize = dims.iter().product();
+        let (sa, sb) = (ctx.rng.usize(SHAPES.len()), ctx.rng.usize(SHAPES.len()));
+        let (wa, wb) = if glen > 2000 {
+            (large_weights(&mut ctx.rng, &dims, sa % 6), large_weights(&mut ctx.rng, &dims, sb % 6))
+        } else {
+            (gen_weights(&mut ctx.rng, &dims, sa), gen_weights(&mut ctx.rng, &dims, sb))
+        };
+        let t = *ctx.rng.pick(&THREADS);
+        let float = ctx.rng.chance(1, 4);
+        ctx.count("reuse");
+        if glen > 2000 {
+            ctx.count(&format!("large:reuse_cells_{}", size_class(glen)));
+        }
+        run_op(ctx, &fmt_reuse(t, float, &dims, iter_a, iter_b, &wa, &wb));
+    }
+    ctx.notes.push(format!(
+        "large/corner/reuse stream: {} grids of 19 683 .. {} cells (> 65 536 cells and not multiples of 65 536, \
+         thin grids with fewer rows than threads, rows of 4096 / 8192 nodes) x {} draw(s) of (pool, shape, iter_count, mode), \
+         weighted_median on {:?} slabs, weights k*2^45 / k*2^46 / k*2^57, 2- and 3-cell grids, buffer reuse; \
+         all compared exactly with the model (i64 totals >= 2^53: the model declines, oracle only) and checked by the oracle",
+        grids.len(),
+        grids.iter().map(|(d, _)| d.iter().product::<usize>()).max().unwrap_or(0),
+        reps,
+        sizes
+    ));
+}
+
 fn random_med(ctx: &mut Ctx) {
     let cases = ctx.budget(1500, 40000);
     for _ in 0..cases {
@@ -1064,6 +1397,7 @@ pub fn generate(ctx: &mut Ctx) {
     if !too_many_hangs(ctx) {
         exhaustive(ctx);
     }
+    large_stream(ctx);
     random_rcb(ctx);
     random_med(ctx);
     index_maps(ctx);
